@@ -730,3 +730,19 @@ M("build-nan-to-num-inplace", ["C07"], SUBG,
   "        for i, (feature, label) in enumerate(zip(X, Y)):\n", "        for i, (feature, label) in enumerate(zip(X, Y)):\n            feature = np.nan_to_num(feature, copy=False)\n")
 M("knn-learn-no-destroy-2", ["C12", "C13", "C16"], KNN,
   "            logger.info(\"Accuracy over k = %d: %s\", k, acc)\n\n            self.subgraph.destroy_arcs()\n", "            logger.info(\"Accuracy over k = %d: %s\", k, acc)\n")
+
+# ---------------------------------------------------------------------------
+# round-3 seeded defects that led to new rules
+# ---------------------------------------------------------------------------
+M("hassanat-negative-branch-max", ["C06"], DIST,
+  ") / (1 + np.maximum(x[i], y[i]) + np.fabs(np.minimum(x[i], y[i])))",
+  ") / (1 + np.maximum(x[i], y[i]) + np.fabs(np.maximum(x[i], y[i])))")
+M("decorator-identity-cache-used", ["C07", "C06", "C08"], DEC,
+  '    @wraps(f)\n    def _avoid_zero_division(x: np.array, y: np.array) -> callable:\n        """Wraps the function for adjusting its arguments.\n\n        Args:\n            x: N-dimensional array.\n            y: N-dimensional array.\n\n        Returns:\n            (callable): The function itself.\n\n        """\n\n        x = x + c.EPSILON\n        y = y + c.EPSILON\n\n        return f(x, y)\n',
+  '    last = [None, None]\n\n    @wraps(f)\n    def _avoid_zero_division(x: np.array, y: np.array) -> callable:\n        """Wraps the function for adjusting its arguments.\n\n        Args:\n            x: N-dimensional array.\n            y: N-dimensional array.\n\n        Returns:\n            (callable): The function itself.\n\n        """\n\n        if x is not last[0]:\n            last[0], last[1] = x, x + c.EPSILON\n        y = y + c.EPSILON\n\n        return f(last[1], y)\n')
+M("decorator-unused-local", ["~C07"], DEC,
+  '    @wraps(f)\n    def _avoid_zero_division(x: np.array, y: np.array) -> callable:\n        """Wraps the function for adjusting its arguments.\n\n        Args:\n            x: N-dimensional array.\n            y: N-dimensional array.\n\n        Returns:\n            (callable): The function itself.\n\n        """\n\n        x = x + c.EPSILON\n        y = y + c.EPSILON\n\n        return f(x, y)\n',
+  '    scratch = [None, None]\n\n    @wraps(f)\n    def _avoid_zero_division(x: np.array, y: np.array) -> callable:\n        """Wraps the function for adjusting its arguments.\n\n        Args:\n            x: N-dimensional array.\n            y: N-dimensional array.\n\n        Returns:\n            (callable): The function itself.\n\n        """\n\n        x = x + c.EPSILON\n        y = y + c.EPSILON\n\n        return f(x, y)\n')
+M("knn-learn-running-best-dedented", ["C16"], KNN,
+  "            if acc > max_acc:\n                max_acc = acc\n                best_k = k\n",
+  "            if acc > max_acc:\n                best_k = k\n            max_acc = acc\n")
